@@ -316,7 +316,7 @@ fn main() {
               fault model = a store call fails without persisting (process survives), or the process dies at the call (not persisted), or the call persists and the \
               acknowledgement is lost (process dies); partial persistence of a single store call is covered only by the thorough filesystem byte-prefix pass.");
     r.assume("ordinary WAL recovery of an uncommitted tail = recover_in_memory_store(Writable) (tail truncation), as documented in ADR 0026; \
-              BLAKE3 collisions are not modelled; request universe = 2 ids, settlement byte budget 16.");
+              BLAKE3 collisions are not modelled; request universe = 2 ids, settlement byte budget 16 (ceiling pass: 1 id, budget = the 1 MiB v1 ceiling).");
     r.assume("symmetry reduction: while no request has been recorded the two request ids are interchangeable (fixtures differ only in labels), \
               so the first recorded request is r0 w.l.o.g.; every later choice is explored for both ids.");
     if let Some(p) = r.replay.clone() {
@@ -327,6 +327,16 @@ fn main() {
         .ok()
         .and_then(|s| s.parse().ok())
         .unwrap_or(r.pick(5usize, 16usize));
+    // ceiling pass: the request's declared bound IS the v1 ceiling (1 MiB) and the valid result is
+    // exactly that long, so live admission, durable encoding and the recovery decoder all meet the
+    // boundary value; every committing step again with a fault at every store call + recovery
+    {
+        set_budget(warp_core::external_action::MAX_EXTERNAL_ACTION_SETTLEMENT_BYTES_V1);
+        let fx_big = Fx::new();
+        explore(&r, &fx_big, "ceiling", &ceiling_menu(), 5, if r.quick() { 0.3 } else { 0.15 });
+        r.counter("ceiling_pass_budget_bytes", budget());
+        set_budget(BUDGET);
+    }
     if r.quick() {
         explore(&r, &fx, "full", &plain_menu(), depth, 0.8);
     } else {
